@@ -99,6 +99,10 @@ def rand_rewrite(rng, name, vendors=(311, 9, 27262), grow=False):
         rw.rm = sorted(set(rw.rm or []) | {rng.choice([80, 80, 33, 26])})
     if rng.random() < 0.4:
         rw.rmv = [(rng.choice(vendors), rng.choice([256, 1, 2, 16, 17, rng.randrange(1, 256)])) for _ in range(rng.randrange(1, 3))]
+        # rules of one vendor with a rule of another vendor BETWEEN them (the table is in configuration order, not grouped by vendor);
+        # derived from the two rules drawn, not from the random stream
+        if len(rw.rmv) == 2 and rw.rmv[0][0] != rw.rmv[1][0] and rw.rmv[0][1] != 256 and (rw.rmv[0][1] + rw.rmv[1][1]) % 3 != 0:
+            rw.rmv.append((rw.rmv[0][0], {1: 2, 2: 1, 16: 17, 17: 16}.get(rw.rmv[0][1], 1)))
     if rng.random() < 0.4:
         rw.add = []
         for _ in range(rng.randrange(1, 3)):
